@@ -292,7 +292,7 @@ pub fn gen_ijson_number(rng: &mut Rng) -> String {
 	gen_dec(rng).spell(rng)
 }
 
-const KEY_POOLS: [&[&str]; 7] = [
+const KEY_POOLS: [&[&str]; 9] = [
 	// distinct supplementary characters sharing their high surrogate, next to BMP neighbours
 	&["\u{1f600}", "\u{1f601}", "\u{1f5ff}", "\u{1f600}\u{1f601}", "\u{1f601}\u{1f600}", "\u{ffff}", "\u{10000}", "\u{103ff}", "\u{10400}"],
 	// long common prefixes (16+ UTF-16 units, beyond any inline capacity) before the deciding character
@@ -311,6 +311,10 @@ const KEY_POOLS: [&[&str]; 7] = [
 	&["\r", "1", "\u{80}", "\u{f6}", "\u{20ac}", "\u{1f600}", "\u{fb33}"],
 	&["e\u{301}", "\u{e9}", "e", "E", "\u{0}", "\u{1}", "\"", "\\", "/"],
 	&["key", "Key", "KEY", "k", "sixteen-bytes-key", "seventeen-byte-key", "\u{d7ff}", "\u{e000}x", "\u{10000}x"],
+	// ASCII keys of 15, 16 and 17 bytes (what fits two machine words) that differ in one bit of the last byte
+	&["0123456789abcde`", "0123456789abcdep", "0123456789abcdea", "0123456789abcdeq", "0123456789abcde", "0123456789abcde`0", "0123456789abcde ", "0123456789abcde0", "0123456789abcde\u{10}"],
+	// ... and of 7, 8 and 9 bytes (one machine word)
+	&["0123456`", "0123456p", "0123456h", "0123456x", "0123456", "0123456`0", "0123456(", "01234568", "0123456\u{8}"],
 ];
 
 fn gen_ijson_key(rng: &mut Rng) -> String {
@@ -600,6 +604,38 @@ pub fn run_c09(cfg: &Config) -> i32 {
 			}
 			rep.distinct_by_construction(max as u64);
 			rep.count("family:uniform-nests-of-every-depth", max as u64);
+			rep
+		});
+		total.merge(rep);
+	}
+	// keys of 65,535 UTF-16 units and more that share a long prefix: the order is decided by a unit
+	// beyond position 65,535, or by the length alone
+	if !cfg!(miri) && !cfg.san {
+		let rep = parallel(cfg.threads, 6, |i| {
+			let mut rep = Report::new();
+			let base: usize = [65_534usize, 65_535, 65_536, 65_537, 70_000, 131_072][i];
+			let unit = ["a", "\u{e9}", "\u{10000}"][i % 3];
+			let per = unit.encode_utf16().count();
+			let head = unit.repeat(base / per);
+			let keys: Vec<String> = vec![
+				format!("{}b", head),
+				format!("{}a", head),
+				head.clone(),
+				format!("{}a{}", head, "z"),
+				format!("{}{}", head, '\u{10000}'),
+				format!("{}{}", head, '\u{e000}'),
+				"a".to_string(),
+				unit.repeat(3),
+				format!("{}{}", head, unit),
+				"b".to_string(),
+			];
+			let r = RVal::Obj(keys.iter().enumerate().map(|(j, k)| (k.clone(), RVal::Num(j.to_string()))).collect());
+			c09_one(&mut rep, "keys-beyond-65535-units", &r, i as u64);
+			let r2 = RVal::Arr(vec![RVal::Obj(keys.iter().rev().enumerate().map(|(j, k)| (k.clone(), RVal::Num(format!("{}.0", j)))).collect())]);
+			c09_one(&mut rep, "keys-beyond-65535-units", &r2, i as u64 + 1);
+			rep.max("longest_key_utf16_units", (base + 2) as u64);
+			rep.distinct_by_construction(2);
+			rep.count("family:keys-beyond-65535-units", 2);
 			rep
 		});
 		total.merge(rep);
@@ -1100,6 +1136,69 @@ pub fn run_c10(cfg: &Config) -> i32 {
 		rep
 	});
 	total.merge(rep);
+
+	// members with EQUAL values under every pair and triple of keys of each pool, in every order (the
+	// order of the members may then be decided by nothing but the keys), at the top and nested
+	{
+		let pools: Vec<usize> = if cfg!(miri) { vec![7] } else { (0..KEY_POOLS.len()).collect() };
+		let rep = parallel(cfg.threads, pools.len(), |pi| {
+			let mut rep = Report::new();
+			let pool = KEY_POOLS[pools[pi]];
+			let n = pool.len();
+			let vals = ["null", "0", "\"s\"", "[]", "{\"a\":1}"];
+			let mut cnt = 0u64;
+			for a in 0..n {
+				for b in (a + 1)..n {
+					for c in b..n {
+						if cfg!(miri) && (a + b + c) % 3 != 0 {
+							continue;
+						}
+						// c == b: the pair alone
+						let keys: Vec<&str> = if c == b { vec![pool[a], pool[b]] } else { vec![pool[a], pool[b], pool[c]] };
+						let val = vals[(a + b + c) % vals.len()];
+						let doc_of_order = |order: &[usize], nested: bool| {
+							let body: Vec<String> = order.iter().map(|&j| {
+								let mut lit = String::new();
+								crate::oracle::print::write_string(keys[j], &mut lit);
+								format!("{}:{}", lit, val)
+							}).collect();
+							if nested { format!("[{{\"x\":{{{}}}}}]", body.join(",")) } else { format!("{{{}}}", body.join(",")) }
+						};
+						let orders: Vec<Vec<usize>> = if keys.len() == 2 { vec![vec![0, 1], vec![1, 0]] } else { vec![vec![0, 1, 2], vec![0, 2, 1], vec![1, 0, 2], vec![1, 2, 0], vec![2, 0, 1], vec![2, 1, 0]] };
+						for nested in [false, true] {
+							let mut first: Option<(String, String)> = None;
+							for (oi, order) in orders.iter().enumerate() {
+								let doc = doc_of_order(order, nested);
+								rep.evaluations += 1;
+								cnt += 1;
+								let out = guard(|| Value::parse_str(&doc).map(|(v, _)| v)).ok().and_then(|r| r.ok()).map(|v| canon_real(&v, oi % 3));
+								match out {
+									Some(Ok((_, s))) => match &first {
+										None => first = Some((doc.clone(), s)),
+										Some((d0, s0)) => {
+											if *s0 != s {
+												rep.violation(
+													"C10:member-order-changes-canonical-form",
+													format!("`{}` and `{}` (same members in another order) canonicalize to `{}` and `{}`", show(d0.as_bytes()), show(doc.as_bytes()), show(s0.as_bytes()), show(s.as_bytes())),
+													json!({"sub": "canon-pair", "a": d0, "b": doc}),
+												);
+											}
+										}
+									},
+									Some(Err(p)) => rep.violation("C10:panic", format!("canonicalize panicked on `{}`: {}", show(doc.as_bytes()), p), json!({"sub": "canon-pair", "a": doc, "b": doc})),
+									None => rep.inconclusive.push(format!("equal-values family: `{}` does not parse", show(doc.as_bytes()))),
+								}
+							}
+						}
+					}
+				}
+			}
+			rep.distinct_by_construction(cnt);
+			rep.count("family:equal-valued-members-over-key-pools", cnt);
+			rep
+		});
+		total.merge(rep);
+	}
 	if cfg!(miri) {
 		eprintln!("miri progress: C10 documents and rewritings done after {:.0} s", started.elapsed().as_secs_f64());
 	}
